@@ -224,6 +224,17 @@ def check_translation(ctx):
                     var = src(s.targets[0])
                     if src(s.value.func) != cls:
                         problems.append('sympy.%s builds a %s' % (kind, src(s.value.func)))
+            # one node per branch, whatever the arguments look like: the meaning of a node does not depend on the form of its operand
+            made = [c_ for s_ in body for c_ in ast.walk(s_) if isinstance(c_, ast.Call) and src(c_.func).endswith('Term') and not c_.args
+                    and src(c_.func)[:1].isupper()]
+            rets = [r_ for s_ in body for r_ in ast.walk(s_) if isinstance(r_, ast.Return)]
+            if len(made) > 1:
+                problems.append('the branch builds %d nodes (%s): the translation depends on the form of the operand'
+                                % (len(made), ', '.join(sorted({src(c_.func) for c_ in made}))))
+            if len(rets) > 1:
+                problems.append('the branch returns from %d places' % len(rets))
+            if cls not in ('SumTerm', 'ProductTerm', 'MaxTerm', 'MinTerm') and any(isinstance(x_, (ast.If, ast.For, ast.While)) for s_ in body for x_ in ast.walk(s_)):
+                problems.append('the branch is not straight-line code (the node built depends on a condition)')
             if var is None:
                 problems.append('no node created')
             else:
